@@ -69,6 +69,7 @@ def templates(tier):
     add('same-bare-chain', 'g1 ; g1 ; g1 ( )', {'g1': num}, n=3)
     add('same-bare-cond', 'g1 ? g1 : g1', {'g1': boo}, n=2)
     add('same-bare-list', '[ g1 , g1 ] ; x = g1 ; g1', {'g1': num}, n=4)
+    add('shadow-builtin', 'min ( f1 ( ) , 2 ) + max ( 1 )', {'min': num, 'f1': num}, n=2)
     add('type-error-mid', 'f1 ( ) + s + f2 ( )', F(2), {'s': sp(['str', 'num'], (0,), strshapes=[(1,)])})
     add('unknown-fn', 'f1 ( ) + nosuch ( f2 ( ) ) + f3 ( )', F(3))
     if tier == 'thorough':
